@@ -265,3 +265,4 @@ more('C02', 'sibling agreement of the two confusion routines', 'C02.p each routi
 more('C18', 'unrolled-view rule on per-key shape derivation', 'C18.o per-key shapes derived with the one-key-per-operation protocols walk the operations sub-circuits stand for')
 more('C06', 'conflict-relation coherence of the merge primitive', 'C06.r the moment a component may merge into is bounded by qubits, measurement-vs-control keys both ways and measurement-vs-measurement of one key')
 more('C06', 'position-not-value rule on terminal measurements', 'C06.s consumers of find_terminal_measurements keep the moment index of every pair')
+more('C16', 'required exactness guard on narrowing stores', 'C16.w a value that may be an integer reaches a float32 field only under a float32 exactness test (or integers are taken by an earlier branch)')
